@@ -7,18 +7,23 @@
 //!       add sub <sndcap> | add send | add clock | add mod | add lis      → ok n=<count> | limit n=<count>
 //!       play <len>            a sound of <len> frames on the main track      → ok n= | limit n=
 //!       tplay <t> <len>       a sound on the t-th sub-track                  → ok n= | limit n= | skip
+//!       add spat <l> <sndcap> a SPATIAL sub-track (listener = the l-th listener created; same storage and capacity
+//!                             as the plain sub-tracks; indexed together with them by tplay / tplayerr / drop sub)
+//!       playerr | tplayerr <t>  play a SoundData whose into_sound() fails, on the main track / on the t-th
+//!                             (plain or spatial) sub-track                   → err n= | limit n= | skip
 //!       drop <kind> <i>       drop the i-th handle of that kind (a modulator: raise its finished flag)
 //!       cb <frames>           one device callback → the counts, and which clock / modulator ids resolve in `Info`
 //! Oracles: count = created − removed ≤ capacity; the limit error exactly when full; removal at the
 //! next callback (the one after if not yet picked up); resources never destroyed on the callback
-//! thread; ids of removed resources never resolve again; creation never panics.
-use crate::probe::{self, CallbackThread, InfoProbeBuilder, InfoSeen, InfoShared, Log, ProbeEffectBuilder, LifeProbeModulatorBuilder, LifeProbeModulatorHandle, ProbeSoundData, Signal};
+//! thread; ids of removed resources never resolve again; creation never panics; a failed play
+//! (`IntoSoundError`) leaves `num_sounds` unchanged and does not consume capacity (`failed_play_*`).
+use crate::probe::{self, CallbackThread, FailingSoundData, InfoProbeBuilder, InfoSeen, InfoShared, Log, ProbeEffectBuilder, LifeProbeModulatorBuilder, LifeProbeModulatorHandle, ProbeSoundData, Signal};
 use crate::runner::{run_cases, Out};
 use crate::util::*;
 use kira::clock::{ClockHandle, ClockSpeed};
-use kira::listener::ListenerHandle;
-use kira::track::{MainTrackBuilder, SendTrackBuilder, SendTrackHandle, TrackBuilder, TrackHandle};
-use kira::{AudioManager, Capacities};
+use kira::listener::{ListenerHandle, ListenerId};
+use kira::track::{MainTrackBuilder, SendTrackBuilder, SendTrackHandle, SpatialTrackBuilder, SpatialTrackHandle, TrackBuilder, TrackHandle};
+use kira::{AudioManager, Capacities, PlaySoundError};
 use std::panic::{catch_unwind, resume_unwind, AssertUnwindSafe};
 use std::sync::{Arc, Mutex};
 use std::time::Duration;
@@ -41,6 +46,11 @@ pub fn gen(rng: &mut Rng, n: usize, thorough: bool, stats: &mut Stats) -> Vec<St
 		}
 		let kinds = ["sub", "send", "clock", "mod", "lis"];
 		let mut attempts = [0u64; 5];
+		if rng.chance(1, 3) {
+			// a listener early on, so that spatial sub-tracks can be built
+			out.push("add lis".into());
+			attempts[4] += 1;
+		}
 		let nops = 8 + rng.below(if thorough { 70 } else { 36 });
 		// focus most cases on one or two kinds so that capacities are actually reached
 		let focus = rng.below(7);
@@ -49,7 +59,12 @@ pub fn gen(rng: &mut Rng, n: usize, thorough: bool, stats: &mut Stats) -> Vec<St
 			match rng.below(16) {
 				0..=4 => {
 					if kinds[k] == "sub" {
-						out.push(format!("add sub {}", rng.pick(&[0u64, 1, 1, 2, 2, 3])));
+						if attempts[4] > 0 && rng.chance(1, 3) {
+							out.push(format!("add spat {} {}", rng.below(attempts[4]), rng.pick(&[0u64, 1, 1, 2, 2, 3])));
+							stats.hit("add_spat");
+						} else {
+							out.push(format!("add sub {}", rng.pick(&[0u64, 1, 1, 2, 2, 3])));
+						}
 					} else {
 						out.push(format!("add {}", kinds[k]));
 					}
@@ -57,13 +72,34 @@ pub fn gen(rng: &mut Rng, n: usize, thorough: bool, stats: &mut Stats) -> Vec<St
 					stats.hit(&format!("add_{}", kinds[k]));
 				}
 				5..=6 => {
-					out.push(format!("play {}", rng.pick(&[0u64, 1, 5, 8, 20, 100])));
-					stats.hit("play");
+					if rng.chance(1, 4) {
+						for _ in 0..(1 + rng.below(3)) {
+							out.push("playerr".into());
+						}
+						stats.hit("playerr");
+					} else {
+						out.push(format!("play {}", rng.pick(&[0u64, 1, 5, 8, 20, 100])));
+						stats.hit("play");
+					}
 				}
 				7..=8 => {
 					if attempts[0] > 0 {
-						out.push(format!("tplay {} {}", rng.below(attempts[0]), rng.pick(&[0u64, 1, 5, 8, 20])));
-						stats.hit("tplay");
+						if rng.chance(1, 3) {
+							// a play that fails in into_sound(): must not touch the track's sound storage
+							let t = rng.below(attempts[0]);
+							for _ in 0..(1 + rng.below(3)) {
+								out.push(format!("tplayerr {}", t));
+							}
+							stats.hit("tplayerr");
+						} else {
+							out.push(format!("tplay {} {}", rng.below(attempts[0]), rng.pick(&[0u64, 1, 5, 8, 20])));
+							stats.hit("tplay");
+						}
+					} else if rng.chance(1, 2) {
+						for _ in 0..(1 + rng.below(3)) {
+							out.push("playerr".into());
+						}
+						stats.hit("playerr");
 					}
 				}
 				9..=11 => {
@@ -115,8 +151,28 @@ impl Shadow {
 	}
 }
 
+/// a plain or a spatial sub-track handle (same `play` / `num_sounds` API)
+enum TH {
+	Plain(TrackHandle),
+	Spatial(SpatialTrackHandle),
+}
+impl TH {
+	fn play<D: kira::sound::SoundData>(&mut self, d: D) -> Result<D::Handle, PlaySoundError<D::Error>> {
+		match self {
+			TH::Plain(h) => h.play(d),
+			TH::Spatial(h) => h.play(d),
+		}
+	}
+	fn num_sounds(&self) -> usize {
+		match self {
+			TH::Plain(h) => h.num_sounds(),
+			TH::Spatial(h) => h.num_sounds(),
+		}
+	}
+}
+
 struct SubTrack {
-	handle: Option<TrackHandle>,
+	handle: Option<TH>,
 	effect_log: Log,
 	sounds: Vec<(Log, u64)>, // (probe log, length)
 	shadow_idx: usize,
@@ -132,6 +188,8 @@ struct St {
 	clocks: Vec<Option<(Option<ClockHandle>, usize)>>,
 	mods: Vec<Option<(LifeProbeModulatorHandle, bool, usize)>>,
 	liss: Vec<Option<(Option<ListenerHandle>, usize)>>,
+	/// the id of every listener created (a `ListenerId` stays usable after its handle is dropped)
+	lis_ids: Vec<Option<ListenerId>>,
 	main_sounds: Vec<(Log, u64)>,
 	sh: [Shadow; 6], // sub send clock mod lis snd
 	/// which registered clock / modulator ids belong to removed resources (must never resolve again)
@@ -152,6 +210,7 @@ impl St {
 			clocks: vec![],
 			mods: vec![],
 			liss: vec![],
+			lis_ids: vec![],
 			main_sounds: vec![],
 			sh: Default::default(),
 			clock_shadow: vec![],
@@ -223,6 +282,37 @@ fn check_create(sh: &mut Shadow, ok: bool, n: Option<usize>, detail: &str, out: 
 	}
 }
 
+/// C08 for a play that fails in `into_sound()`: nothing was created, so the count is what it was
+/// (= the shadow's count) and no capacity is consumed (the later `limit_iff_full` / `count_exact*`
+/// oracles keep checking that against the unchanged shadow).
+fn failed_play<H>(
+	sh: &Shadow,
+	r: &Result<H, PlaySoundError<probe::ProbeIntoSoundError>>,
+	before: usize,
+	n: usize,
+	detail: &str,
+	out: &mut Out,
+) -> String {
+	if n != before || n != sh.count() {
+		out.oracle_fail("failed_play_changes_count", detail);
+	}
+	match r {
+		Err(PlaySoundError::IntoSoundError(_)) => format!("err n={}", n),
+		Err(PlaySoundError::SoundLimitReached) => {
+			// acceptable only if the track really is full (a build that checks the limit first)
+			if sh.count() < sh.cap {
+				out.oracle_fail("failed_play_consumes_capacity", detail);
+			}
+			format!("limit n={}", n)
+		}
+		Err(_) => format!("other n={}", n),
+		Ok(_) => {
+			out.oracle_fail("failed_play_returns_ok", detail);
+			format!("ok n={}", n)
+		}
+	}
+}
+
 fn op(st: &mut St, line: &str, detail: &str, out: &mut Out) -> String {
 	let tok: Vec<&str> = line.split_whitespace().collect();
 	match tok[0] {
@@ -268,7 +358,33 @@ fn op(st: &mut St, line: &str, detail: &str, out: &mut Out) -> String {
 					check_create(&mut st.sh[0], ok, Some(n), detail, out);
 					let idx = st.sh[0].res.len().wrapping_sub(1);
 					st.subs.push(r.ok().map(|h| SubTrack {
-						handle: Some(h),
+						handle: Some(TH::Plain(h)),
+						effect_log: elog,
+						sounds: vec![],
+						shadow_idx: idx,
+						snd: Shadow { cap: sc, res: vec![] },
+					}));
+					format!("{} n={}", if ok { "ok" } else { "limit" }, n)
+				}
+				"spat" => {
+					let l = pu(tok[2]) as usize;
+					let sc = pu(tok[3]) as usize;
+					let Some(Some(lid)) = st.lis_ids.get(l).copied() else { return "skip".into() };
+					let elog = probe::new_log();
+					st.all_logs.push(elog.clone());
+					let b = SpatialTrackBuilder::new().sound_capacity(sc).with_effect(ProbeEffectBuilder {
+						gain: 1.0,
+						offset: 0.0,
+						feedback: 0.0,
+						log: elog.clone(),
+					});
+					let r = create(st.sh[0].cap, detail, out, || mgr.add_spatial_sub_track(lid, glam::Vec3::ZERO, b));
+					let n = mgr.num_sub_tracks();
+					let ok = r.is_ok();
+					check_create(&mut st.sh[0], ok, Some(n), detail, out);
+					let idx = st.sh[0].res.len().wrapping_sub(1);
+					st.subs.push(r.ok().map(|h| SubTrack {
+						handle: Some(TH::Spatial(h)),
 						effect_log: elog,
 						sounds: vec![],
 						shadow_idx: idx,
@@ -327,6 +443,7 @@ fn op(st: &mut St, line: &str, detail: &str, out: &mut Out) -> String {
 					let ok = r.is_ok();
 					check_create(&mut st.sh[4], ok, None, detail, out);
 					let idx = st.sh[4].res.len().wrapping_sub(1);
+					st.lis_ids.push(r.as_ref().ok().map(|h| h.id()));
 					st.liss.push(r.ok().map(|h| (Some(h), idx)));
 					(if ok { "ok" } else { "limit" }).to_string()
 				}
@@ -372,6 +489,23 @@ fn op(st: &mut St, line: &str, detail: &str, out: &mut Out) -> String {
 				sub.sounds.push((log, len));
 			}
 			format!("{} n={}", if ok { "ok" } else { "limit" }, n)
+		}
+		"playerr" => {
+			let Some(mgr) = st.mgr.as_mut() else { return "bad-op".into() };
+			let before = mgr.main_track().num_sounds();
+			// into_sound() fails before anything is reserved: no panic even with capacity 0
+			let r = create(1, detail, out, || mgr.play(FailingSoundData));
+			let n = mgr.main_track().num_sounds();
+			failed_play(&st.sh[5], &r, before, n, detail, out)
+		}
+		"tplayerr" => {
+			let t = pu(tok[1]) as usize;
+			let Some(Some(sub)) = st.subs.get_mut(t) else { return "skip".into() };
+			let Some(h) = sub.handle.as_mut() else { return "skip".into() };
+			let before = h.num_sounds();
+			let r = create(1, detail, out, || h.play(FailingSoundData));
+			let n = h.num_sounds();
+			failed_play(&sub.snd, &r, before, n, detail, out)
 		}
 		"drop" => {
 			let i = pu(tok[2]) as usize;
